@@ -14,7 +14,7 @@ for d in /verif/mutants/*${PAT}*.diff; do
   b=$(basename $d .diff); prop=${b%%__*}
   git -C /repo apply $d || { echo -e "$b\tAPPLY-FAILED" | tee -a $OUT.tmp; continue; }
   log=$(mktemp)
-  ./check $prop --tier quick > $log 2>&1; rc=$?
+  AXSIM_EVIDENCE_DIR=/tmp/axsim_scratch_evidence ./check $prop --tier quick > $log 2>&1; rc=$?
   v=$(grep -c "^VIOLATION property=$prop " $log)
   rp=$(grep "^VIOLATION property=$prop replay=" $log | head -1 | sed 's/.*replay=//')
   cls=$(grep -A1 "^VIOLATION property=$prop " $log | grep "class=" | head -1 | sed 's/.*class=\([^ ]*\).*steps \([0-9]*->[0-9]*\).*/\1\t\2/')
